@@ -29,6 +29,7 @@ pub mod prelude {
     impl<T> Key for *const T { fn key(&self) -> i64 { *self as usize as i64 } }
     impl<T: Key> Key for Option<T> { fn key(&self) -> i64 { match self { None => -1, Some(v) => 1 + v.key() * 2 } } }
     impl<T: Key> Key for Vec<T> { fn key(&self) -> i64 { self.iter().fold(self.len() as i64, |a, b| a * 31 + b.key()) } }
+    impl<T: Key> Key for [T] { fn key(&self) -> i64 { self.iter().fold(self.len() as i64, |a, b| a * 31 + b.key()) } }
     impl<T: Key, const N: usize> Key for [T; N] { fn key(&self) -> i64 { self.iter().fold(N as i64, |a, b| a * 31 + b.key()) } }
     impl<T: Key, U: Key> Key for (T, U) { fn key(&self) -> i64 { self.0.key() * 1009 + self.1.key() } }
     impl<T: ?Sized> Key for PhantomData<T> { fn key(&self) -> i64 { 0 } }
@@ -46,6 +47,23 @@ pub mod prelude {
         }
     }
     impl Key for Inc { fn key(&self) -> i64 { self.0 as i64 } }
+
+    // ---------------------------------------------------------------- Skew: a PartialOrd that disagrees with its Ord
+    // Ord is the order of the number, PartialOrd the reverse: a generated `partial_cmp` that asks the field's PartialOrd where
+    // the documentation says `Some(cmp)` (or the other way round) gives a visibly different answer.
+    #[derive(Debug, Clone, Copy, PartialEq, Eq, Hash, Default)]
+    pub struct Skew(pub u8);
+    impl Ord for Skew { fn cmp(&self, o: &Self) -> Ordering { self.0.cmp(&o.0) } }
+    #[allow(clippy::non_canonical_partial_ord_impl)]
+    impl PartialOrd for Skew { fn partial_cmp(&self, o: &Self) -> Option<Ordering> { Some(o.0.cmp(&self.0)) } }
+    impl Key for Skew { fn key(&self) -> i64 { self.0 as i64 } }
+
+    // a type that takes integer literals through a hand-written `Into` impl only (no `From`): "converted with Into" means Into
+    #[derive(Debug, Clone, Copy, PartialEq, Eq, PartialOrd, Ord, Hash, Default)]
+    pub struct IntoOnly(pub i64);
+    #[allow(clippy::from_over_into)]
+    impl Into<IntoOnly> for i32 { fn into(self) -> IntoOnly { IntoOnly(self as i64 + 1000) } }
+    impl Key for IntoOnly { fn key(&self) -> i64 { self.0 } }
 
     // ---------------------------------------------------------------- Decoy: inherent methods named like the trait methods
     // The std traits are derived and behave normally. The inherent methods of the same names give observably wrong
@@ -148,6 +166,8 @@ pub mod prelude {
     pub fn m_into_none<T, U>(_v: T) -> Option<U> { None }
 
     // aliases of primitive types: the same type under a name educe cannot recognise
+    /// for expressions whose tokens hold a comma outside every bracket: `pick2::<u8, u16>(..)`
+    pub fn pick2<A, B>(a: A, _b: B) -> A { a }
     pub type AliasI32 = i32;
     /// a value for a field type without a Default impl, written as a path (array expressions need syn's `full`)
     pub const ARR40: [u8; 40] = [7u8; 40];
